@@ -75,6 +75,7 @@ type vfC13Begin struct {
 	Stmt    string   `json:"stmt"`
 	Obs     bool     `json:"observer"`
 	Entries string   `json:"entries"`
+	Wire    bool     `json:"wire"` // end-to-end observation: "start" is logged by the node on receipt
 }
 
 type vfC13Summary struct {
